@@ -181,7 +181,8 @@ fn encoder_layout<const KIND: usize, const PEER_V4: bool>() {
  "bound": "kind {0} (0 = ICMPv4 error (source quench) quoting a 28-byte datagram that carries an echo request, 1 = ICMPv4 echo reply, 2 = ICMPv6 echo reply), id/seq/code/quote symbolic; responder address symbolic {1}",
  "desc": "reply encoding per PROTOCOL.md 7.4: 22 bytes = id, 16-byte zero-padded responder address, ICMP type, code, seq of the matched request",
  "encodes": ["http_icmp_codec::Encoder::encode_packet", "net_utils::put_fixed_size_ip"],
- "quick": "[(k, p, 'true' if p == 'v4' else 'false') for k in (0, 1, 2) for p in ('v4', 'v6')]"}
+ "quick": "[(k, p, 'true' if p == 'v4' else 'false') for k in (0, 1) for p in ('v4', 'v6')]",
+ "thorough": "[(2, p, 'true' if p == 'v4' else 'false') for p in ('v4', 'v6')]"}
 @*/
 
 // @harness tier=quick core=no bound="ICMPv4 echo *requests* and timestamp messages of 12/20 bytes, all contents"
